@@ -401,6 +401,10 @@ pub fn crash(case: &JsonValue) -> JsonValue {
     } else {
         cmd.env("ACB_VERIF_CRASH", spec);
     }
+    // the write path reports its steps here (hook ACB_VERIF_TRACE)
+    let trace_path = dir.with_extension("trace");
+    let _ = std::fs::remove_file(&trace_path);
+    cmd.env("ACB_VERIF_TRACE", &trace_path);
     let mut child = cmd.spawn().unwrap();
     {
         use std::io::Write;
@@ -418,6 +422,14 @@ pub fn crash(case: &JsonValue) -> JsonValue {
     out["child_out"] = String::from_utf8_lossy(&outp.stdout).to_string().into();
     out["dir"] = dir_listing(&dir);
     out["parsed"] = read_year(&dir, year);
+    out["trace"] = JsonValue::Array(
+        std::fs::read_to_string(&trace_path)
+            .unwrap_or_default()
+            .lines()
+            .map(|l| JsonValue::String(l.to_string()))
+            .collect(),
+    );
+    let _ = std::fs::remove_file(&trace_path);
 
     // fresh loader over the post-crash directory
     let truth = truth_of(case);
